@@ -11,6 +11,9 @@ pub mod c03;
 pub mod c13;
 pub mod c20;
 pub mod c20tok;
+pub mod psetdesc;
+pub mod c08;
+pub mod c14;
 
 pub fn run(prop: &str, rng: &mut R, out: &mut Out, extra: &[String]) -> bool {
     let _ = extra;
@@ -26,6 +29,8 @@ pub fn run(prop: &str, rng: &mut R, out: &mut Out, extra: &[String]) -> bool {
         "C03" => c03::run(rng, out),
         "C13" => c13::run(rng, out),
         "C20" => c20::run(rng, out),
+        "C08" => c08::run(rng, out),
+        "C14" => c14::run(rng, out),
         _ => return false,
     }
     true
